@@ -338,7 +338,7 @@ private:
     // Read 1 bit image. The colors are encoded by an index.
     void read_1_bit_row( byte_t* dst )
     {
-        this->_io_dev.read( &_buffer.front(), _pitch );
+        this->_io_dev.read_all( &_buffer.front(), _pitch );
         _mirror_bits( _buffer );
 
         read_bit_row< gray1_image_t::view_t >( dst );
@@ -347,7 +347,7 @@ private:
     // Read 4 bits image. The colors are encoded by an index.
     void read_4_bits_row( byte_t* dst )
     {
-        this->_io_dev.read( &_buffer.front(), _pitch );
+        this->_io_dev.read_all( &_buffer.front(), _pitch );
         _swap_half_bytes( _buffer );
 
         read_bit_row< gray4_image_t::view_t >( dst );
@@ -356,7 +356,7 @@ private:
     /// Read 8 bits image. The colors are encoded by an index.
     void read_8_bits_row( byte_t* dst )
     {
-        this->_io_dev.read( &_buffer.front(), _pitch );
+        this->_io_dev.read_all( &_buffer.front(), _pitch );
 
         read_bit_row< gray8_image_t::view_t >( dst );
     }
@@ -376,7 +376,7 @@ private:
 
         //
         byte_t* src = &_buffer.front();
-        this->_io_dev.read( src, _pitch );
+        this->_io_dev.read_all( src, _pitch );
 
         for( dst_view_t::x_coord_t i = 0
            ; i < this->_info._width
@@ -397,7 +397,7 @@ private:
 
     void read_row( byte_t* dst )
     {
-        this->_io_dev.read( dst, _pitch );
+        this->_io_dev.read_all( dst, _pitch );
     }
 
 private:
